@@ -53,6 +53,8 @@ void nmc_enumerate(const nmc::Tier& t, const nmc::Sink& emit) {
     // operands whose SIZE is known at compile time (raw C arrays, fixed_ndarray): every ordered pair of the shapes (2,3), (3,2), (1,6), (6,1) - same element count, and for the
     // unperturbed variant the same row-major contents - plus a perturbed element; a comparison that looks at the fixed sizes instead of the shapes answers true (seeded change m18d)
     for (long ia = 0; ia < 4; ia++) for (long ib = 0; ib < 4; ib++) for (long kind = 0; kind < 2; kind++) for (long p = -1; p < 6; p += (p == -1 ? 1 : 5)) emit(Case("ndfix", {{ia, ib}, {kind}, {p}}));
+    // NaN: a difference that is NaN is not below any tolerance (default build: the NaN / inf handling macros are off) - scalars and one array element, both orders
+    for (long form = 0; form < 2; form++) for (long w = 0; w < 3; w++) emit(Case("closenan", {{form}, {w}}));
     // isclose over wrapped operands with an EXPLICIT tolerance: form (0 maybe<double>, 1 either<none,double> right alternatives, 2 either<double,none> left alternatives,
     // 3 tuple<double,double>, 4 maybe<ndarray>, 5 either<int-list,double-array> right alternatives) x (difference, eps) pairs on either side of the tolerance and on either
     // side of the DEFAULT 1e-6 (a recursive call that forgets to forward eps compares with the default; seeded change m18c)
@@ -177,6 +179,19 @@ Outcome nmc_execute(const Case& c) {
         if (!o.fail.empty()) { o.fail += std::string("  [shapes (") + std::to_string(SH[ia][0]) + "," + std::to_string(SH[ia][1]) + ") vs (" + std::to_string(SH[ib][0]) + "," + std::to_string(SH[ib][1]) + ")]"; return o; }
         if (gotc >= 0 && gotc != (want ? 1 : 0)) return Outcome::bad("wrong", std::string("isclose of two fixed-size operands returned ") + (gotc ? "true" : "false"), true, o.outcome);
         return o;
+    }
+    if (c.op == "closenan") {
+        long form = c.a[0][0], w = c.a[1][0]; const double nan = std::nan("");
+        const double x = w == 1 ? 1.0 : nan, y = w == 0 ? 1.0 : nan;   // w: 0 (nan, 1)  1 (1, nan)  2 (nan, nan)
+        int got, rev;
+        if (form == 0) { got = utils::isclose(x, y, 1e-3) ? 1 : 0; rev = utils::isclose(y, x, 1e-3) ? 1 : 0; }
+        else { auto a = make_arr<double>(L{3}), b = make_arr<double>(L{3}); for (int i = 0; i < 3; i++) { a.data_[(size_t)i] = i; b.data_[(size_t)i] = i; } a.data_[1] = x; b.data_[1] = y; got = utils::isclose(a, b, 1e-3) ? 1 : 0; rev = utils::isclose(b, a, 1e-3) ? 1 : 0; }
+#if defined(NMTOOLS_ISCLOSE_NAN_HANDLING) && NMTOOLS_ISCLOSE_NAN_HANDLING
+        const bool want = w == 2;
+#else
+        const bool want = false;
+#endif
+        return decide(form ? "isclose(array with a NaN element, array)" : "isclose(NaN operand)", got, rev, want, true, (uint64_t)(form * 3 + w) + 9900);
     }
     if (c.op == "closewrap") {
         static const double DELTA[6] = {0.5, 0.5, 1e-8, 1e-8, 0.0, 3e-7}, EPS[6] = {1.0, 0.25, 1e-9, 1e-6, 1e-9, 1e-7};
